@@ -30,7 +30,7 @@ THEOREMS = ["NfcVerif.C17." + t for t in [
     "simulation_step", "simulation", "spec_keeps_invariant", "spec_reachable_invariant",
     "spec_addr_unique", "spec_names_live", "spec_bind_rule", "api_bind_rule",
     "spec_close_frees", "api_close_frees",
-    "queued_datagram_source", "datagram_end_to_end", "recvfrom_returns",
+    "queued_datagram_source", "datagram_end_to_end", "recvfrom_returns", "connect_peer_is_cc_source",
 ]]
 
 SN = b"urn:nfc:sn:"
@@ -58,12 +58,12 @@ def gen_op(rng, prof, pair):
     socks = pair.socks[x]
     n = len(socks)
     w = {
-        "table":    dict(S=7, B=9, X=2.5, L=0, C=0, A=0, T=0, P=0, R=0, Q=0, M=0, D=0.2),
-        "named":    dict(S=7, B=9, X=2.5, L=1, C=0, A=0, T=0, P=0, R=0, Q=1, M=0, D=0.2),
-        "datagram": dict(S=3, B=4, X=1, L=0, C=1, A=0, T=7, P=2, R=6, Q=0, M=5, D=0.2),
-        "connect":  dict(S=3, B=4, X=2, L=3, C=5, A=5, T=0.3, P=0.3, R=1, Q=1, M=2, D=0.2),
-        "resolve":  dict(S=3, B=5, X=3, L=1, C=2, A=1, T=0, P=0, R=0, Q=5, M=1, D=0.2),
-        "mixed":    dict(S=4, B=5, X=2, L=2, C=3, A=3, T=3, P=1, R=3, Q=2, M=3, D=0.2),
+        "table":    dict(S=7, B=9, X=2.5, L=0, C=0, A=0, T=0, P=0, R=0, Q=0, M=0, D=0.2, K=0),
+        "named":    dict(S=7, B=9, X=2.5, L=1, C=0, A=0, T=0, P=0, R=0, Q=1, M=0, D=0.2, K=0),
+        "datagram": dict(S=3, B=4, X=1, L=0, C=1, A=0, T=7, P=2, R=6, Q=0, M=5, D=0.2, K=0),
+        "connect":  dict(S=3, B=4, X=2, L=3, C=5, A=5, T=0.3, P=0.3, R=1, Q=1, M=2, D=0.2, K=5),
+        "resolve":  dict(S=3, B=5, X=3, L=1, C=2, A=1, T=0, P=0, R=0, Q=5, M=1, D=0.2, K=1),
+        "mixed":    dict(S=4, B=5, X=2, L=2, C=3, A=3, T=3, P=1, R=3, Q=2, M=3, D=0.2, K=2),
     }[prof]
     if n == 0:
         k = "S"
@@ -106,6 +106,25 @@ def gen_op(rng, prof, pair):
             a = rng.choice([rng.randrange(32, 64), rng.randrange(32, 36), rng.randrange(0, 32), 4, 4, 1, 0, 16, 31, 32, 63, 64, -1, 100])
             return "B %s %d a %d" % (x, i, a)
         return "B %s %d n %s" % (x, i, hx(pick_name(rng, wide)))
+    if k == "K":
+        cl = [i for i, s in enumerate(socks) if kd(s) == "dlc" and s.state.CLOSED]
+        ls = [i for i, s in enumerate(pair.socks[y]) if kd(s) == "dlc" and s.state.LISTEN]
+        if not cl:
+            return "S %s dlc" % x
+        if not ls:
+            return "S %s dlc" % y if not any(kd(s) == "dlc" and s.state.CLOSED for s in pair.socks[y]) else \
+                "L %s %d %d" % (y, rng.choice([i for i, s in enumerate(pair.socks[y]) if kd(s) == "dlc" and s.state.CLOSED]), rng.choice([1, 2]))
+        i, lid = rng.choice(cl), rng.choice(ls)
+        la = pair.socks[y][lid].addr
+        names = [n for n, a in pair.ctl[y].snl.items() if a == la]
+        r = rng.random()
+        if r < 0.12:
+            lid = rng.choice(ls)                     # possibly another listener than the one addressed
+        if r < 0.6 and names:
+            return "K %s %d n %s %d" % (x, i, hx(names[0]), lid)
+        if r < 0.75:
+            return "K %s %d n %s %d" % (x, i, hx(pick_name(rng, wide)), lid)
+        return "K %s %d a %d %d" % (x, i, la if la is not None else 33, lid)
     if k == "X":
         return "X %s %d" % (x, pick(lambda s: not s.state.SHUTDOWN, 0.8))
     if k == "L":
@@ -240,7 +259,9 @@ class Oracle(object):
         self.open = []             # known-open findings seen (key, what)
         self.inflight = {"A": [], "B": []}   # datagrams sent by that side: (dest, src, data)
         self.resolved = {"A": {}, "B": {}}
-        self.stats = dict(binds=0, closes=0, datagrams=0, by_name=0, resolves=0, frees=0)
+        self.stats = dict(binds=0, closes=0, datagrams=0, by_name=0, resolves=0, frees=0, connected=0, probes=0)
+        self.pending = {}          # (side, listening socket) -> client sockets whose CONNECT waits there, oldest first
+        self.conns = []            # connections made: (client side, client socket, server side, accepted socket, how)
         pair.observer = self.observe
 
     def bad(self, key, what):
@@ -264,6 +285,9 @@ class Oracle(object):
                 if bytes(got.data) != bytes(q.data) or got.ssap != q.ssap:
                     self.bad("datagram-altered", "UI payload/source changed on delivery")
         elif q.name == "CONNECT":
+            origin = [j for j, c in enumerate(self.pair.socks[x]) if c.addr == q.ssap and c.state.CONNECT]
+            for i in grown:
+                self.pending.setdefault((y, i), []).append(origin[-1] if origin else None)
             if q.dsap == 1:
                 self.stats["by_name"] += 1
                 a = ref.names.get(bytes(q.sn)) if q.sn is not None else None
@@ -364,14 +388,19 @@ class Oracle(object):
                 self.stats["frees"] += len(before - set(ref.owner))
             self.check_table(x)
             return
+        acc = None
+        if k == "K":
+            out, acc = out.split(" & ")
         # operations with an implicit bind
-        if not was_bound and sock.addr is not None and k in ("L", "C", "T", "P"):
+        if not was_bound and sock.addr is not None and k in ("L", "C", "T", "P", "K"):
             a = sock.addr
             if a in ref.owner or not (32 <= a <= 63):
                 self.bad("addr-handed-out-twice", "implicit bind of %s%d returned %d (in use or outside 32..63)" % (x, i, a))
             else:
                 ref.bound(i, a)
         if k == "A" and out.startswith("ok sock "):
+            if self.pending.get((x, i)):
+                self.pending[(x, i)].pop(0)
             _, _, nid, a, peer = out.split(" ")
             la = ref.addr.get(i)
             if la is None or int(a) != la:
@@ -379,6 +408,37 @@ class Oracle(object):
             else:
                 ref.kind.append("dlc")
                 ref.bound(int(nid), la)
+        if k == "K":
+            y = "B" if x == "A" else "A"
+            ry, lid, nid = self.ref[y], int(t[5]), None
+            served = None
+            if acc.startswith("ok sock "):
+                if self.pending.get((y, lid)):
+                    served = self.pending[(y, lid)].pop(0)
+                _, _, nid, a, peer = acc.split(" ")
+                nid, la = int(nid), ry.addr.get(lid)
+                if la is None or int(a) != la:
+                    self.bad("accept-wrong-address", "accepted socket has address %s, listener is bound at %s" % (a, la))
+                    return
+                ry.kind.append("dlc")
+                ry.bound(nid, la)
+                if peer != str(ref.addr.get(i)):
+                    nid = None      # the listener had an older request pending: this accept served another client
+            if out == "ok":
+                self.stats["connected"] += 1
+                how = "name %r" % bytes.fromhex(t[4]) if t[3] == "n" else "address %s" % t[4]
+                want = ry.names.get(bytes.fromhex(t[4]) if t[4] != "-" else b"") if t[3] == "n" else int(t[4])
+                got, got2 = sock.peer, pair.ctl[x].getpeername(sock)
+                if nid is None or served != i:
+                    # the CC that completed this connect answers an older request sent from the same address
+                    if want is None or got != want:
+                        self.open.append(("stale-connect-answer", "connect by %s at %s%d (address %s) was completed by the answer to an "
+                                          "earlier request from that address; peer is %s, the service is at %s" % (how, x, i, sock.addr, got, want)))
+                elif want is None or got != want or got2 != want:
+                    self.bad("connect-peer-wrong", "connect by %s succeeded, the peer of the socket is %s (getpeername %s) but "
+                             "the service is bound at %s on the other controller" % (how, got, got2, want))
+                elif nid is not None:
+                    self.conns.append((x, i, y, nid, how))
         if k in ("T", "P") and out == "ok true":
             if k == "T":
                 self.inflight[x].append((int(t[4]), ref.addr.get(i), bytes.fromhex(t[3]) if t[3] != "-" else b""))
@@ -404,6 +464,32 @@ class Oracle(object):
                 self.bad("datagram-not-sent", "socket %s%d (bound at %s) received %r from %d which the peer never sent there "
                          "(or received it twice)" % (x, i, dst, data, src))
         self.check_table(x)
+
+    def probe(self):
+        """after the history: one I PDU over every connection made must arrive at the accepted socket"""
+        import nfc.llcp
+        from sims.sap_pair import Unmodelled
+        pair = self.pair
+        for n, (x, i, y, nid, how) in enumerate(self.conns):
+            if self.fail is not None:
+                return
+            cl, sv = pair.socks[x][i], pair.socks[y][nid]
+            if not (cl.state.ESTABLISHED and sv.state.ESTABLISHED and cl.send_window_slots > 0 and not sv.recv_queue):
+                continue
+            data = b"probe-%d" % n
+            try:
+                pair.ctl[x].send(cl, data, nfc.llcp.MSG_DONTWAIT)
+                quiet = pair.pump()
+            except Unmodelled:
+                return
+            except Exception as e:  # noqa
+                self.bad("connection-send-raises", "send on the connection made by connect to %s raised %r" % (how, e))
+                return
+            self.stats["probes"] += 1
+            got = [bytes(q.data) for q in sv.recv_queue if q.name == "I"]
+            if quiet and got != [data]:
+                self.bad("connection-data-misrouted", "data sent on the connection made by connect to %s (client %s%d, peer %s) did not "
+                         "arrive at the accepted socket %s%d bound at %s (its queue: %r)" % (how, x, i, cl.peer, y, nid, sv.addr, got))
 
     def check_table(self, x):
         """the real table against the reference: same addresses in use, each socket in at most one SAP"""
@@ -450,6 +536,8 @@ def judged_history(ops_or_gen, rng=None, prof=None, length=0):
     if not ops or ops[-1] != "D":
         ops.append("D")
         outs.append(pair.do("D") if (not outs or outs[-1] != "abort") else "skip")
+    if outs[-1] != "skip" and "abort" not in outs:
+        orc.probe()
     return ops, outs, orc
 
 
@@ -459,7 +547,7 @@ NA, NB, NSNEP = hx(SN + b"a"), hx(SN + b"b"), hx(SN + b"snep")
 EX_ALPHA = [
     "B A 0 n " + NA, "B A 3 n " + NA, "B A 3 n " + NB, "B A 0 n " + NSNEP, "B A 1 a 4", "B A 1 a 16", "B A 2 -",
     "B A 2 a 32", "X A 0", "X A 1", "X A 3", "L A 0 1", "L A 3 1", "A A 0", "A A 3",
-    "C B 0 n " + NA, "C B 2 n " + NA, "C B 0 n " + NSNEP, "C B 0 a 16", "Q B " + NA, "T B 1 aa 4", "T B 1 bb 32", "R A 1", "R A 2",
+    "C B 0 n " + NA, "C B 2 n " + NA, "K B 0 n " + NA + " 0", "K B 2 n " + NA + " 3", "K B 0 a 16 0", "C B 0 n " + NSNEP, "C B 0 a 16", "Q B " + NA, "T B 1 aa 4", "T B 1 bb 32", "R A 1", "R A 2",
 ]
 
 
@@ -486,7 +574,7 @@ def renumber_ok(ops):
         t = op.split(" ")
         if t[0] == "S":
             n[t[1]] += 1
-        elif t[0] in ("B", "L", "C", "A", "T", "P", "R", "X"):
+        elif t[0] in ("B", "L", "C", "A", "T", "P", "R", "X", "K"):
             if int(t[2]) >= n[t[1]] + 8:      # accepted sockets may add a few
                 return False
     return True
@@ -505,6 +593,9 @@ def run(ck):
         "PDU encode/decode round trip (C11) and aggregation/MIU (C10) are outside: send-agf off, all PDUs fit the MIU",
         "resolve() answers are cached for the lifetime of the link (documented in socket.resolve); the oracle requires "
         "the first answer to be exact and later answers to repeat it",
+        "a connect can only complete when the peer application accepts while the call waits: operation K = connect with the peer "
+        "calling accept() inside the wait (model: apiConnectServed, in the driver and the tie, not in the history alphabet of the theorems); "
+        "after each history one I PDU is sent over every connection made and must arrive at the accepted socket (real code only)",
         "histories that reach F39 (non-connection PDU routed to an established data link connection: the real dispatch "
         "never returns) or I-PDU traffic are cut at that operation (reported as 'abort' by model and harness alike)",
         "the model is of the code with fixes/C17/*.patch (F8, F9) and the double-close repair (repo commit ed1b4fb) applied; F22 is modelled as found",
@@ -531,6 +622,9 @@ def run(ck):
         # second connection request while an accepted connection shares the SAP of the listener
         ["S A dlc", "B A 0 n " + NA, "L A 0 2", "S B dlc", "C B 0 n " + NA, "A A 0", "S B dlc", "C B 1 n " + NA, "A A 0",
          "S B dlc", "C B 2 a 16", "A A 0", "X A 0", "S B dlc", "C B 3 n " + NA, "D"],
+        # connect-by-name completes: peer of the client = address of the named service; data reaches the accepted socket
+        ["S A dlc", "B A 0 n " + NB, "L A 0 1", "S A dlc", "B A 1 n " + NA, "L A 1 1", "S B dlc", "K B 0 n " + NA + " 1", "S B dlc",
+         "K B 1 a 16 0", "D"],
         # closing twice, closing a stale socket whose address was reused
         ["S A ldl", "B A 0 -", "X A 0", "X A 0", "S A dlc", "B A 1 a 32", "X A 0", "X A 1", "X A 1", "X A 0", "D"],
         # dynamic exhaustion and reuse
@@ -562,7 +656,7 @@ def run(ck):
     replies = model.ask_many([";".join(r[1]) for r in runs])
     dis = 0
     nops = 0
-    tot = dict(binds=0, closes=0, datagrams=0, by_name=0, resolves=0, frees=0)
+    tot = dict(binds=0, closes=0, datagrams=0, by_name=0, resolves=0, frees=0, connected=0, probes=0)
     for (bucket, ops, outs, orc), rep in zip(runs, replies):
         mo = rep.split(";")
         nops += len(ops)
